@@ -171,6 +171,33 @@ def run(chk: Check) -> None:
             requests.append(None)
     gen_s = time.time() - t0
 
+    # ---- real exports: the optimizer stage of real conversions (pre -> post) -----------------
+    real_n = 0
+    try:
+        import exporter
+        from props import c12 as _c12, c16 as _c16
+        real_progs = [(n, f, s, {}) for n, f, s in _c12.programs()] + list(_c16.policy_programs())
+        for name, fn, specs, kw in real_progs:
+            try:
+                st = exporter.export_stages(fn, [tuple(x) for x in specs], **kw)
+            except Exception:
+                continue
+            real_n += 1
+            desc = {"family": "real_export", "program": name, "guards": sorted(kw)}
+            feeds_list = [graphgen.make_feeds(st["pre"], rng, {"B": 2, "H": 4, "W": 5}),
+                          graphgen.make_feeds(st["pre"], rng, {"B": 3, "H": 2, "W": 7})]
+            if st["pre"].SerializeToString() == st["post"].SerializeToString():
+                continue
+            pass_change["<whole pipeline on real export>"] = pass_change.get("<whole pipeline on real export>", 0) + 1
+            req = termify.pair_request(st["pre"], st["post"], budget=20000)
+            meta.append({"case": f"real:{name}", "pass": "<pipeline>", "desc": desc, "before": st["pre"],
+                         "after": st["post"], "feeds": feeds_list, "req": req is not None})
+            requests.append(req)
+            chk.count({"family": "real_export", "program": name, "config": kw}, nontrivial=True)
+    except Exception as e:  # noqa: BLE001
+        chk.log(f"real-export stream unavailable: {type(e).__name__}: {e}")
+    chk.info("real_exports", real_n)
+
     lines = [r for r in requests if r is not None]
     answers = iter(common.run_driver("C02", lines)) if lines else iter([])
     certified = rejected = toobig = errors = 0
@@ -185,7 +212,7 @@ def run(chk: Check) -> None:
             continue
         if verdict and verdict.startswith("error"):
             errors += 1
-        if req is None and m["pass"] != "<pipeline>":
+        if req is None and not m.get("precomputed"):
             toobig += 1
         if verdict == "rejected":
             rejected += 1
